@@ -656,16 +656,16 @@ theorem at_single (rr : Repo) (b : Branch) (ha : rr.arena = [b]) (hp : b.parent 
   rw [ha]
   simp only [List.length_cons, List.length_nil, atHeight, List.getElem?_cons_zero, hp]
 
-/-- **Save then Load restores the same repository** (linear chain, any load depth ≥ 0, across the
-    1000-header file boundaries): both succeed, and the loaded repository reports the same tip
-    (height, hash, work), the same header at EVERY height ≥ 0 — from memory above the load depth,
-    from the files below —, and the same height for EVERY hash (pruned headers through the
-    historical heights read back from the files; unknown hashes stay unknown). -/
-theorem save_load_linear (r : Repo) (hl : Linear r) (depth : Int) (hd : 0 ≤ depth) (g : Hdr) :
-    ∃ rs rl, save r = (rs, none) ∧ load rs depth g = (rl, none) ∧
+/-- **loading a store that holds what Save writes for a linear chain** gives back every observation
+    (whatever the stored invalid list is). -/
+theorem load_obs_linear (r : Repo) (hl : Linear r) (depth : Int) (hd : 0 ≤ depth) (g : Hdr) (rs : Repo)
+    (hfiles : FilesExact rs.store.main (r.br 0).headers ((r.br 0).headers.length / H + 1))
+    (hsb : rs.store.branches = [((r.br 0).first.id, rootFile (r.br 0))])
+    (hsi : rs.store.index = some [(r.br 0).first.id]) (hscfg : rs.cfg = r.cfg) :
+    ∃ rl, load rs depth g = (rl, none) ∧
       tipHeight rl = tipHeight r ∧ tipId rl = tipId r ∧ tipWork rl = tipWork r ∧
       (∀ k : Int, 0 ≤ k → headerAt rl k = headerAt r k) ∧ (∀ id, hashHeight rl id = hashHeight r id) ∧
-      rl.invalid = mergedInvalid rs.store rs.cfg ∧ rs.store.invalid = some r.invalid := by
+      rl.invalid = mergedInvalid rs.store rs.cfg := by
   obtain ⟨har, hbr, hpar, hph, hoff, hne, hfirst⟩ := linear_facts r hl
   have hw := hl.wf.chain.wf.link
   have hids := hl.wf.chain.wf.ids
@@ -674,10 +674,9 @@ theorem save_load_linear (r : Repo) (hl : Linear r) (depth : Int) (hd : 0 ≤ de
     unfold Repo.br; rw [List.getElem?_eq_getElem hlen]; rfl
   have hnd := branch_ids_nodup r.arena r.branches hids 0 (r.br 0) hb0
   have hL : 0 < (r.br 0).headers.length := List.length_pos_iff.mpr hne
-  obtain ⟨rs, hsave, hfiles, hsb, hsi, hsv, hscfg, hsdd, hsds⟩ := save_linear r hl
   obtain ⟨rl, hload, hla, hlb, hll, hls, hli, hlc, _, _, hlh⟩ := load_linear_result rs (r.br 0) depth g hsi hsb hph hoff hne hd hnd hfiles
     (by intro d hd0; rw [hscfg]; exact hl.gen d hd0)
-  refine ⟨rs, rl, hsave, hload, ?_, ?_, ?_, ?_, ?_, hli, hsv⟩
+  refine ⟨rl, hload, ?_, ?_, ?_, ?_, ?_, hli⟩
   all_goals
     have hlr := loadedRoot_eq (r.br 0) depth hph hoff hd hne
     obtain ⟨q1, q2, q3, q4, q5, q6, q7⟩ := root_pruned (branchOfFile (rootFile (r.br 0))) hph hoff
@@ -795,5 +794,20 @@ theorem save_load_linear (r : Repo) (hl : Linear r) (depth : Int) (hd : 0 ≤ de
     · simp only [hdrop, ↓reduceIte, Option.map_none]
     · simp only [hdrop, ↓reduceIte, hbm]
       cases posOf (r.br 0).headers id <;> rfl
+
+
+/-- **Save then Load restores the same repository** (linear chain, any load depth ≥ 0, across the
+    1000-header file boundaries): both succeed, and the loaded repository reports the same tip
+    (height, hash, work), the same header at EVERY height ≥ 0 — from memory above the load depth,
+    from the files below —, and the same height for EVERY hash (pruned headers through the
+    historical heights read back from the files; unknown hashes stay unknown). -/
+theorem save_load_linear (r : Repo) (hl : Linear r) (depth : Int) (hd : 0 ≤ depth) (g : Hdr) :
+    ∃ rs rl, save r = (rs, none) ∧ load rs depth g = (rl, none) ∧
+      tipHeight rl = tipHeight r ∧ tipId rl = tipId r ∧ tipWork rl = tipWork r ∧
+      (∀ k : Int, 0 ≤ k → headerAt rl k = headerAt r k) ∧ (∀ id, hashHeight rl id = hashHeight r id) ∧
+      rl.invalid = mergedInvalid rs.store rs.cfg ∧ rs.store.invalid = some r.invalid := by
+  obtain ⟨rs, hsave, hfiles, hsb, hsi, hsv, hscfg, _, _⟩ := save_linear r hl
+  obtain ⟨rl, h1, h2, h3, h4, h5, h6, h7⟩ := load_obs_linear r hl depth hd g rs hfiles hsb hsi hscfg
+  exact ⟨rs, rl, hsave, h1, h2, h3, h4, h5, h6, h7, hsv⟩
 
 end BRV.Repo
